@@ -28,19 +28,18 @@ RULE = ("random ADMGs (2-7 nodes; bidirected chains through conditioned nodes an
         "graphs, non-Variable arguments). A case is non-trivial when it is in the property's scope and either the "
         "conditioning set is non-empty or the true verdict changes when every bidirected edge is deleted.")
 ASSUMPTIONS = [
-    "OPEN (no theorem): the last clause, 'consequently every reported separation is a conditional independence of every "
-    "compatible model' (global Markov property). The theorems reduce it to the textbook fact for DAGs applied to the canonical "
-    "latent DAG (dsep_iff_dsep_canonical); the check decides it per case on graphs with <=5 nodes by exact-rational evaluation "
-    "of one random compatible discrete SCM",
-    "the theorems need no acyclicity: 'verdict <-> no m-connecting path <-> no d-connecting path in dagOf G' holds for every "
-    "directed mixed graph; acyclicity only makes dagOf G a DAG (dagOf_acyclic)",
+    "the 'compatible models' of the last clause are the semi-Markovian models of lean/Y0/Spec/Scm.lean (Scm.Compatible: discrete "
+    "variables of any cardinality, positive rational parameters, independent root latents of any arity, two observed variables "
+    "share a latent only across a bidirected edge); latents with parents and non-positive distributions are outside the class",
+    "the graph-theoretic theorems need no acyclicity ('verdict <-> no m-connecting path <-> no d-connecting path in dagOf G' holds "
+    "for every directed mixed graph); acyclicity is used for dagOf G being a DAG (dagOf_acyclic) and for dsep_sound",
     "Python set iteration order inside are_d_separated is assumed irrelevant (the model uses lists); checked by re-running "
     "each query on a re-shuffled construction of the graph",
     "the TypeError branches (non-Variable arguments) have no model counterpart (the model is typed); they are exercised on the "
     "Python side only",
 ]
 EXHAUSTIVE = {"quick": False, "thorough": True}
-LEANCHECK_MODULES = ["Y0.Model.Sep", "Y0.Props.C04"]
+LEANCHECK_MODULES = ["Y0.Model.Sep", "Y0.Lemmas.SepMarkov", "Y0.Props.C04"]
 
 CORPUS = [
     # F2 witness (DESIGN section 1): B->A, B<->A, C<->A ; B vs C given A   (A=0, B=1, C=2)
@@ -405,25 +404,27 @@ def finding_key(case, res):
 
 
 MANIFEST = {
-    "text": ("Proof: 27 Lean theorems about the executable model of are_d_separated / DSeparationJudgement (the code after the "
-             "fix of defect F2). For every graph from_edges can build, all distinct a, b and all C not containing them: the test "
-             "never raises (dsep_total) and says 'separated' exactly when a, b are not connected in the augmented ancestral "
-             "graph minus C (dsep_iff_augmented), which holds exactly when there is no m-connecting path "
+    "text": ("Proof: 33 Lean theorems about the executable model of are_d_separated / DSeparationJudgement (the code after the "
+             "fix of defect F2), every clause of the property. For every graph from_edges can build, all distinct a, b and all C "
+             "not containing them: the test never raises (dsep_total) and says 'separated' exactly when a, b are not connected in "
+             "the augmented ancestral graph minus C (dsep_iff_augmented), which holds exactly when there is no m-connecting path "
              "(augmented_iff_mconn: the Lauritzen/Richardson theorem, proved from first principles in both directions, "
              "including walk-to-path shortening), which holds exactly when a, b are d-separated given C in the canonical DAG "
              "with one fresh latent parent per bidirected edge (mconn_iff_dconn_canonical; dsep_iff_dsep_canonical is the "
-             "property's main clause, dagOf_acyclic shows that graph is a DAG). Symmetry in (a, b) (dsep_symm, for verdicts "
-             "and errors alike), insertion-order independence (dsep_equiv_congr: congruence under NxMixedGraph.__eq__), the "
-             "canonical judgement record (judgement_canonical, judgement_fields, areDSeparated_symm) and the exact error "
-             "taxonomy (dsep_invalid, dsep_endpoint_conditioned) are theorems too. The model is tied to "
-             "conditional_independencies.py on every run by differential correspondence (single queries and whole verdict "
-             "tables); an independent brute-force path oracle on the canonical latent DAG (networkx.is_d_separator as second "
-             "opinion) searches for a concrete failing input. Partial only in the final 'consequently a conditional "
-             "independence of every compatible model' clause, which has no theorem."),
+             "property's main clause, dagOf_acyclic shows that graph is a DAG). Symmetry in (a, b) (dsep_symm, verdicts and "
+             "errors alike), insertion-order independence (dsep_equiv_congr: congruence under NxMixedGraph.__eq__; "
+             "dsep_cond_congr: C matters only as a set), the canonical judgement record (judgement_canonical, judgement_fields, "
+             "areDSeparated_symm) and the exact error taxonomy (dsep_invalid, dsep_endpoint_conditioned). The final clause is "
+             "dsep_sound: on every ADMG a reported separation is a conditional independence P(a,b,C)P(C) = P(a,C)P(b,C) of the "
+             "observational distribution of EVERY compatible semi-Markovian model (global Markov property, Lemmas/SepMarkov.lean, "
+             "on top of the c-factor lemmas of Lemmas/QFactor.lean). The model is tied to conditional_independencies.py on every "
+             "run by differential correspondence (single queries, whole verdict tables, judgement records); an independent "
+             "brute-force path oracle on the canonical latent DAG (networkx.is_d_separator as second opinion) and exact-rational "
+             "evaluation of random compatible SCMs search for a concrete failing input."),
     "note": ("Trusted: Lean kernel; axioms propext/Classical.choice/Quot.sound; the hand-written model and networkx "
              "(ancestors, has_path) tied to the code by sampling; the definitions of m-connecting path and canonical DAG in "
-             "Spec/SepSpec.lean. OPEN: the global Markov property (reported separation => conditional independence in every "
-             "compatible SCM) is not mechanised; it is decided per case on small graphs by exact-rational evaluation of one "
-             "random compatible SCM."),
-    "technique": "Lean 4 theorems (closure = ReflTransGen; walk induction with re-routing; loop cutting; latent-fork surgery) + differential correspondence with are_d_separated + brute-force d-connecting-path oracle on the canonical latent DAG",
+             "Spec/SepSpec.lean, of the model class in Spec/Scm.lean and of conditional independence in Spec/SepCI.lean. "
+             "Models with latents that have parents, or with zero-probability events, are outside the class the last clause "
+             "quantifies over."),
+    "technique": "Lean 4 theorems (closure = ReflTransGen; walk induction with re-routing; loop cutting; latent-fork surgery; c-factor factorisation and finite-sum algebra for the global Markov property) + differential correspondence with are_d_separated + brute-force d-connecting-path oracle on the canonical latent DAG + exact-rational SCM evaluation",
 }
